@@ -1,22 +1,25 @@
 SPECIFICATION MCSpec
-VIEW View
 CONSTANTS
-  Streams = {1, 3}
+  Streams = {1, 3, 5}
   Role = "server"
-  Bud <- BudQuick
-  MaxInq = 2
+  Bud <- BudExport
+  MaxInq = 4
   MaxBurst = 2
-  SetVals = {0, 1}
+  SetVals = {0, 1, 2}
   PingVals = {1, 2}
-  AckVals = {100, 101}
-  GoAwayIds = {0, 2147483647}
+  AckVals = {100, 101, 102}
+  GoAwayIds = {0, 1, 2147483647}
   Codes = {0, 11}
-  AbruptCodes = {2}
+  AbruptCodes = {0, 2}
   AllowEof = TRUE
-  LocalVals = {1}
-  HarnessPing = FALSE
-  Atomic = TRUE
-  ExportLen = 0
+  LocalVals = {1, 2}
+  HarnessPing = TRUE
+  Atomic = FALSE
+  ExportLen = 16
+ACTION_CONSTRAINT Drained
+ACTION_CONSTRAINT LateEnd
+CONSTRAINT ExportStop
+INVARIANT ExportInv
 INVARIANT InvAssert
 INVARIANT InvC14Acks
 INVARIANT InvC14Local
